@@ -31,7 +31,7 @@ def parts():
     if VARIANT == "four":
         return [p for p in PARTS if not p[0].attr and p[1] == "dict"]
     if VARIANT == "three-objects":
-        return [p for p in PARTS if not p[0].attr]
+        return [p for p in PARTS if not p[0].attr and p[1] == "dict"]
     if hlib.TIER == "thorough":
         return PARTS
     return [p for p in PARTS if not p[0].attr]  # the attribute-access variants share the buffer code
@@ -39,7 +39,7 @@ def parts():
 
 def actions():
     if VARIANT is not None:
-        return ACTIONS[:6]
+        return ["read", "write-new", "write-replace", "clear", "write-restore"]
     return ACTIONS if hlib.TIER == "thorough" else ACTIONS[:6]
 
 
@@ -208,8 +208,8 @@ def plan(tier):
     if tier == "quick":
         return [{"fn": "prog", "nparts": 4 * 12, "timeout": 300}]  # class x first token (2 objects x 6 actions)
     return [{"fn": "prog", "nparts": len(PARTS) * 16, "timeout": 900},  # class x first token (2 objects x 8 actions)
-            {"fn": "prog4", "nparts": 2 * 12, "timeout": 900},  # one dict class per strategy x first token (2 objects x 6 actions)
-            {"fn": "prog3o", "nparts": 4 * 18, "timeout": 900}]  # non-attr classes x first token (3 objects x 6 actions)
+            {"fn": "prog4", "nparts": 2 * 10, "timeout": 900},  # one dict class per strategy x first token (2 objects x 5 actions)
+            {"fn": "prog3o", "nparts": 2 * 15, "timeout": 900}]  # one dict class per strategy x first token (3 objects x 5 actions)
 
 
 def smoke(tier):
@@ -232,6 +232,6 @@ FUNCTIONS = [
     "synced_collections.buffers.memory_buffered_collection:SharedMemoryFileBufferedCollection._load_from_buffer",
 ]
 BOUNDS = {"quick": {"classes": 8, "objects_on_one_file": 2, "contexts": CTX, "pre_histories": ["none", "A-loaded-before", "B-used-buffered-before"], "classes_quick": "BufferedJSON and MemoryBufferedJSON dict/list (the attribute-access variants share the buffer code)", "program": "3 tokens over {A,B} x " + str(ACTIONS[:6])},
-          "thorough": {"prog": "8 classes, 3 tokens over {A,B} x " + str(ACTIONS), "prog4": "BufferedJSONDict and MemoryBufferedJSONDict, 4 tokens over {A,B} x " + str(ACTIONS[:6]), "prog3o": "4 non-attr classes, three objects, 3 tokens over {A,B,C} x " + str(ACTIONS[:6])}}
+          "thorough": {"prog": "8 classes, 3 tokens over {A,B} x " + str(ACTIONS), "prog4": "BufferedJSONDict and MemoryBufferedJSONDict, 4 tokens over {A,B} x [read, write-new, write-replace, clear, write-restore]", "prog3o": "the same two classes, three objects, 3 tokens over {A,B,C} x the same five actions"}}
 ASSUMPTIONS = ["finite selector space explored exhaustively through the solver's path tree; decided programs run the real code natively with concrete values", "environment models of vf/env_model.py; default capacity"]
 OUTSIDE = ["more than 3 objects, more than 3 (4) tokens", "objects in *different* buffering states (documented as unsupported by the library)"]
